@@ -3,10 +3,11 @@
     of simulations (requests on any simulation, clone of any simulation, trace toggles).
     After every operation the observation lists the answer and, for EVERY simulation of
     the world, the whole content of its holders, its invalidated_caches set, its trace
-    flag and its entity structure.  In a [lazy] case nothing is looked at before the first
+    flag and its entity structure, and the back-pointers of every population, holder and
+    tracer (model/HeapRefs.v).  In a [lazy] case nothing is looked at before the first
     clone (looking creates the holders). *)
 From Coq Require Import ZArith List Bool String.
-From Verif Require Import Base Obs Cal Tables Period Np Group Param Engine CorrEng Heap.
+From Verif Require Import Base Obs Cal Tables Period Np Group Param Engine CorrEng Heap HeapRefs.
 Import ListNotations.
 Open Scope Z_scope.
 
@@ -37,18 +38,54 @@ Definition oworld (w : world) : obs := OL (map (osim w) (sims w)).
 
 Definition is_clone (o : op) : bool := match o with OpClone _ _ => true | _ => false end.
 
-Fixpoint run_obs (pol : policy) (sy : sys) (w : world) (quiet : bool) (os : list op) : list obs :=
+(** Back-pointers in canonical form: an object is named by the number of the simulation it
+    belongs to (0 = the original, 1 = the first clone ...; -1 = none), a population also by
+    its kind (0 persons, 1 household).  The harness names the real objects the same way. *)
+Fixpoint index_of (f : rsim -> bool) (l : list rsim) (j : Z) : Z :=
+  match l with
+  | [] => -1
+  | s :: r => if f s then j else index_of f r (j + 1)
+  end.
+
+Definition osim_ref (rw : rworld) (x : oid) : obs :=
+  OZ (index_of (fun s => Nat.eqb (r_id s) x) (rsims rw) 0).
+Definition otracer_ref (rw : rworld) (x : oid) : obs :=
+  OZ (index_of (fun s => Nat.eqb (r_tracer s) x) (rsims rw) 0).
+Definition opop_ref (rw : rworld) (x : oid) : obs :=
+  let jp := index_of (fun s => Nat.eqb (p_id (r_persons s)) x) (rsims rw) 0 in
+  if 0 <=? jp then OL [OZ jp; OZ 0]
+  else let jg := index_of (fun s => Nat.eqb (p_id (r_group s)) x) (rsims rw) 0 in
+       if 0 <=? jg then OL [OZ jg; OZ 1] else OL [OZ (-1); OZ (-1)].
+
+Definition find_holder (s : rsim) (v : nat) : option rholder :=
+  match find (fun vh => Nat.eqb (fst vh) v) (p_holders (r_persons s)) with
+  | Some vh => Some (snd vh)
+  | None => option_map snd (find (fun vh => Nat.eqb (fst vh) v) (p_holders (r_group s)))
+  end.
+
+Definition orefs_sim (nv : nat) (rw : rworld) (s : rsim) : obs :=
+  OL [osim_ref rw (p_sim (r_persons s)); osim_ref rw (p_sim (r_group s));
+      oopt (opop_ref rw) (p_members (r_group s)); otracer_ref rw (r_tracer s);
+      OL (map (fun v => oopt (fun h => OL [osim_ref rw (h_sim h); opop_ref rw (h_pop h)]) (find_holder s v))
+              (seq 0 nv))].
+
+Definition orefs (nv : nat) (rw : rworld) : obs := OL (map (orefs_sim nv rw) (rsims rw)).
+
+Fixpoint run_obs (pol : policy) (sy : sys) (w : world) (rw : rworld) (quiet : bool) (os : list op) : list obs :=
   match os with
   | [] => []
   | o :: rest =>
       let '(w1, a) := wstep pol sy w o in
+      let rw1 := rstep backpointer_policy rw o in
       let quiet1 := quiet && negb (is_clone o) in
-      OL [oanswer a; if quiet1 then ONone else oworld w1] :: run_obs pol sy w1 quiet1 rest
+      OL [oanswer a; if quiet1 then ONone else oworld w1;
+          if quiet1 then ONone else orefs (List.length (vars sy)) rw1]
+      :: run_obs pol sy w1 rw1 quiet1 rest
   end.
 
 Definition run (c : case) : obs :=
   match c with
   | CWorld sy pp disk tr lazy os =>
-      OL (run_obs (clone_policy disk) sy (winit (List.length (vars sy)) pp tr) lazy os)
+      OL (run_obs (clone_policy disk) sy (winit (List.length (vars sy)) pp tr) (rinit sy) lazy os)
   | CSkip => OS "skip"%string
   end.
